@@ -325,10 +325,48 @@ Expect(i) ==
       alts |-> IF conv = "ok" THEN encs ELSE {},
       targets |-> tg]
 
+\* ------------------------------------------------------------ the [short] framing limits (big values)
+\* Values with an element / key / value of 65535, 65536, 70000 bytes or with 65535 / 65536 elements are described,
+\* not built: TLC states whether the framing can carry them (SizeEncodable), the total length of the encoding and
+\* its first bytes; the harness builds the Go value from the same description (element byte j = j mod 251,
+\* element i of a counted list = i mod 100, set / map keys 0 .. n-1, map values i mod 100, small element "ab",
+\* key 7 / value 1), and reports refusal, total length, prefix and a summary of the round trip.
+BigForms == {"list-elem", "set-elem", "map-key", "map-val", "list-count", "set-count", "map-count"}
+BigSet ==
+  {[form |-> f, p |-> p, size |-> s, count |-> IF f = "list-elem" THEN 2 ELSE 1] :
+     f \in {"list-elem", "set-elem", "map-key", "map-val"}, p \in ProtosShort \cup ProtosInt, s \in {65535, 65536, 70000}}
+  \cup {[form |-> f, p |-> p, size |-> IF f = "list-count" THEN 1 ELSE 4, count |-> n] :
+     f \in {"list-count", "set-count", "map-count"}, p \in ProtosShort \cup ProtosInt, n \in {65535, 65536}}
+Bigs == SetToSeq(BigSet)
+Pat(k) == [j \in 1 .. k |-> (j - 1) % 251]
+BigExpect(i) ==
+  LET d == Bigs[i]
+      p == d.p
+      s == d.size
+      n == d.count
+      H == SizeWidth(p)
+      f == d.form
+      ok == IF f \in {"list-elem", "set-elem", "map-key", "map-val"} THEN SizeEncodable(s, p) ELSE SizeEncodable(n, p)
+      total == CASE f = "list-elem" -> H + (H + s) + (H + 2)
+                 [] f = "set-elem" -> H + (H + s)
+                 [] f = "map-key" -> H + (H + s) + (H + 4)
+                 [] f = "map-val" -> H + (H + 4) + (H + s)
+                 [] f = "list-count" -> H + n * (H + 1)
+                 [] f = "set-count" -> H + n * (H + 4)
+                 [] f = "map-count" -> H + n * ((H + 4) + (H + 1))
+      small == Enc(TList(NT("tinyint")), VList(<<VI(0), VI(1), VI(2)>>), p).b
+      prefix == CASE f = "list-elem" -> LenBytes(2, p) \o LenBytes(s, p) \o Pat(8)
+                  [] f \in {"set-elem", "map-key"} -> LenBytes(1, p) \o LenBytes(s, p) \o Pat(8)
+                  [] f = "map-val" -> LenBytes(1, p) \o LenBytes(4, p) \o <<0, 0, 0, 7>> \o LenBytes(s, p) \o Pat(4)
+                  [] f = "list-count" -> LenBytes(n, p) \o SubSeq(small, H + 1, Len(small))
+                  [] OTHER -> LenBytes(n, p)
+  IN [id |-> i, form |-> f, p |-> p, size |-> s, count |-> n, refuse |-> ~ok,
+      total |-> IF ok THEN total ELSE 0, prefix |-> IF ok THEN prefix ELSE <<>>]
+
 NShards == atoi(IOEnv.VF_NSHARDS)
 Shard == atoi(IOEnv.VF_SHARD)
-Init == idx \in {i \in 1 .. Len(Cases) : i % NShards = Shard}
+Init == idx \in {i \in 1 .. Len(Cases) + Len(Bigs) : i % NShards = Shard}
 Next == UNCHANGED vars
 Spec == Init /\ [][Next]_vars
-Emit == PrintT(<<"CASE", ToJson(Expect(idx))>>)
+Emit == IF idx <= Len(Cases) THEN PrintT(<<"CASE", ToJson(Expect(idx))>>) ELSE PrintT(<<"BIG", ToJson(BigExpect(idx - Len(Cases)))>>)
 =============================================================================
